@@ -34,9 +34,9 @@ Definition itype_eqb (a b : itype) : bool :=
   | _, _ => false
   end.
 
-(* [fixed_D146 = false]: the unchanged code — `hasattr(dist, "mean")` lets the NotImplementedError of the property escape,
-   so the empirical-mean fallback written right below it is unreachable.  Flip when the fix lands. *)
-Definition fixed_D146 : bool := false.
+(* [fixed_D146 = true]: `try: return dist.mean except (AttributeError, NotImplementedError)` -- the empirical-mean
+   fallback is reachable.  (false = the code before the fix: hasattr(dist, "mean") let NotImplementedError escape.) *)
+Definition fixed_D146 : bool := true.
 
 Definition mean_action (fixed : bool) (d : dcap) : action :=
   match c_mean d with
